@@ -458,3 +458,26 @@ fn f28_deeply_nested_component_is_an_error_not_a_stack_overflow() {
         assert_eq!(r.ok(), Some(true));
     }
 }
+
+#[test]
+fn f29_empty_block_alt_on_a_plain_instruction_is_rejected_not_dropped() {
+    let w = wat::parse_str(r#"(module (func (export "f") nop (block nop)))"#).unwrap();
+    let mut m = Module::parse(&w, false).unwrap();
+    let before = print(&m.encode());
+    let mut m = Module::parse(&w, false).unwrap();
+    let r = std::panic::catch_unwind(std::panic::AssertUnwindSafe(|| {
+        let mut it = ModuleIterator::new(&mut m, &vec![]);
+        // instruction 0 is the `nop`: a block alternate does not apply to it
+        it.empty_block_alt_at(Location::Module { func_idx: FunctionID(0), instr_idx: 0 });
+    }));
+    let after = print(&m.encode());
+    // before the fix the request was accepted and the function came out unchanged
+    assert!(r.is_err() || after != before, "request accepted and silently dropped:\n{after}");
+    // a block alternate on the block itself still removes it
+    let mut m = Module::parse(&w, false).unwrap();
+    {
+        let mut it = ModuleIterator::new(&mut m, &vec![]);
+        it.empty_block_alt_at(Location::Module { func_idx: FunctionID(0), instr_idx: 1 });
+    }
+    assert!(!print(&m.encode()).contains("block"));
+}
